@@ -66,5 +66,25 @@ for dt in (jnp.int8, jnp.int16):
   if not np.array_equal(np.asarray(qv.diagonal), np.diag(m)) or not np.array_equal(np.diag(np.asarray(qv.to_float())), np.diag(m)):
     add(["diagonal", str(dt.__name__)], "extracted diagonal is not reproduced exactly")
 
+  # extract_diagonal=True: symmetric G G' with uneven column scales: off-diagonal round trip within half of ITS column's
+  # bucket, re-quantization keeps the integers
+  for trial in range(3):
+    cases += 1
+    G = rng.randn(5, 3).astype(np.float32)
+    G[0] *= 100.0
+    S = (G @ G.T).astype(np.float32)
+    qv = QuantizedValue.from_float_value(jnp.asarray(S), dt, True)
+    deq = np.asarray(qv.to_float(), np.float64)
+    b = np.asarray(qv.bucket_size, np.float64)[None, :]
+    Nq = 127 if dt == jnp.int8 else 32767
+    off = ~np.eye(5, dtype=bool)
+    tol = b / 2 * (1 + 1e-6) + (np.abs(S.astype(np.float64)) + Nq * b) * 2.0 ** -22
+    if np.any((np.abs(S.astype(np.float64) - deq) > tol) & off):
+      add(["extract_diagonal G G'", str(dt.__name__), trial],
+          f"off-diagonal round-trip error {float(np.max((np.abs(S - deq) / b)[off])):.3g} buckets (> 1/2)")
+    qv2 = QuantizedValue.from_float_value(qv.to_float(), dt, True)
+    if not np.array_equal(np.asarray(qv2.quantized), np.asarray(qv.quantized)):
+      add(["extract_diagonal G G'", str(dt.__name__), trial], "re-quantizing the dequantized value changes the integers")
+
 print(json.dumps({"cases": cases, "violations": viol,
                   "bound": f"tier={tier}: int8/int16 x seeded random tensors of rank 1..3 over 75 decades + boundary columns, seed {seed}"}))
